@@ -116,6 +116,41 @@ def mk_bin(op, a, b, ty):
     return ("bin", op, a, b, ty)
 
 
+def module_of(path):
+    """module prefix of a function path: `a::b::T::f` / `<&a::b::T as Tr>::f` / `a::b::f::{closure#0}` -> `a::b::`"""
+    m = re.match(r"^<&?(?:mut )?([\w:]+?)(?:<.*>)? as ", path)
+    base = m.group(1) if m else path
+    base = re.sub(r"<[^<>]*>", "", base)
+    parts = base.split("::")
+    while parts and (parts[-1].startswith("{") or not parts[-1] or parts[-1][0].islower() is False and False):
+        parts.pop()
+    # drop the item itself (function or type + method)
+    mods = []
+    for p_ in parts:
+        if p_ and (p_[0].isupper() or p_.startswith("{")):
+            break
+        mods.append(p_)
+    if len(mods) == len(parts) and mods:
+        mods = mods[:-1]      # free function: last component is the function
+    return "::".join(mods) + "::" if mods else ""
+
+
+def auto_inline(prog, fn):
+    """default inlining policy: private helpers (not `pub`) defined in the root function's own module — a helper a
+    maintainer extracts or inlines must not change what a rule sees"""
+    mod = module_of(fn.path)
+
+    def pol(name):
+        if not mod or not module_of(name).startswith(mod):
+            return False
+        cs = prog.by_path.get(name) if hasattr(prog, "by_path") else None
+        if not cs or len(cs) != 1:
+            return False
+        vis = (cs[0].raw.get("vis") or "") if hasattr(cs[0], "raw") else ""
+        return not vis.startswith("Public")
+    return pol
+
+
 class Result:
     def __init__(self):
         self.ret = None
@@ -135,7 +170,7 @@ class Eval:
     def __init__(self, prog, fn, args=None, inline=None, depth=0, maxdepth=3, params=None, shared=None, assume=None):
         self.P = prog
         self.fn = fn
-        self.inline = inline or (lambda name: False)
+        self.inline = inline or auto_inline(prog, fn)
         self.depth = depth
         self.maxdepth = maxdepth
         self.params = params or {}
@@ -496,6 +531,34 @@ class Eval:
             return ("disc", freeze(v))
         return ("opaque", str(rv)[:60])
 
+    def static_len(self, ref):
+        """array length of the place a reference into an argument names, from the static types (argument type, ADT fields)"""
+        root, path = ref[1], ref[2]
+        m = re.match(r"^arg(\d+)$", root[1]) if root[0] == "ext" else None
+        if not m or self.depth != 0:
+            return None
+        i = int(m.group(1))
+        if i >= len(self.fn.locals):
+            return None
+        ty = re.sub(r"^(&'?\w* ?(mut )?|\*(const|mut) )", "", self.fn.locals[i] or "").strip()
+        for p_ in path:
+            if p_[0] == "f":
+                adt = self.P.adts.get(ty.split("<")[0]) if hasattr(self.P, "adts") else None
+                if not adt or len(adt.get("variants", [])) != 1:
+                    return None
+                fs = [f for f in adt["variants"][0]["fields"] if f["name"] == str(p_[1])]
+                if len(fs) != 1:
+                    return None
+                ty = fs[0]["t"]
+            elif p_[0] == "i":
+                n = array_len(ty)
+                if n is None:
+                    return None
+                ty = re.match(r"^\[(.*); \d+\]$", ty).group(1)
+            else:
+                return None
+        return array_len(ty)
+
     def len_of(self, a):
         if isinstance(a, tuple) and a and a[0] == "ref":
             if a[3] is not None:
@@ -504,6 +567,9 @@ class Eval:
                     return mk_bin("Sub", en, st, "usize")
                 return ("len_from", self.ext_key(a[1], a[2]) if a[1][0] == "ext" else str(a[1]), st)
             if a[1][0] == "ext":
+                n_ = self.static_len(a)
+                if n_ is not None:
+                    return C(n_, "usize")
                 return ("len", self.ext_key(a[1], a[2]))
             if a[1][0] == "local":
                 fenv = self.shared["frames"].get(a[1][1], {})
@@ -625,8 +691,128 @@ class Eval:
             if f in ("checked_add", "checked_sub", "checked_mul"):
                 return ("checked", f[8:], args[0], args[1], ty)
             return None
-        if name.endswith("IntoIterator>::into_iter") and len(args) == 1 and isinstance(args[0], Agg) and args[0].get("_adt", "").endswith("ops::Range"):
+        if name.endswith("IntoIterator>::into_iter") and len(args) == 1 and isinstance(args[0], Agg) and (args[0].get("_adt", "").endswith("ops::Range") or args[0].get("_k") == "iter"):
             return args[0].copy()
+        # ---- iterators over arrays / slices of KNOWN length and their adaptors: constant-trip, so the loop unroller follows them
+        if re.search(r"(slice::<impl \[T\]>|array::<impl \[T; N\]>)::iter(_mut)?$", name) or (name.endswith("IntoIterator>::into_iter") and len(args) == 1 and isinstance(args[0], tuple) and args[0][:1] == ("ref",)):
+            r_ = args[0]
+            if isinstance(r_, tuple) and r_[:1] == ("ref",):
+                n_ = self.len_of(r_)
+                if is_c(n_):
+                    lo_ = 0
+                    hi_ = n_[1]
+                    base_ = r_
+                    if r_[3] is not None:
+                        st_, en_ = r_[3]
+                        if is_c(st_):
+                            lo_ = st_[1]
+                            hi_ = lo_ + n_[1]
+                            base_ = ("ref", r_[1], r_[2], None)
+                        else:
+                            base_ = None
+                    if base_ is not None:
+                        it = Agg()
+                        it["_k"] = "iter"
+                        it["kind"] = "slice"
+                        it["ref"] = base_
+                        it["i"] = lo_
+                        it["hi"] = hi_
+                        return it
+        mi = re.match(r"^core::iter::(?:traits::iterator::)?Iterator::(rev|zip|enumerate)$", name)
+        if mi and args and isinstance(args[0], Agg) and (args[0].get("_k") == "iter" or args[0].get("_adt", "").endswith("ops::Range")):
+            def as_it(a):
+                if isinstance(a, Agg) and a.get("_k") == "iter":
+                    return a.copy()
+                if isinstance(a, Agg) and a.get("_adt", "").endswith("ops::Range") and is_c(a.get("start")) and is_c(a.get("end")):
+                    it2 = Agg()
+                    it2["_k"] = "iter"
+                    it2["kind"] = "range"
+                    it2["i"] = a["start"][1]
+                    it2["hi"] = a["end"][1]
+                    it2["ty"] = a["start"][2]
+                    return it2
+                return None
+            a0 = as_it(args[0])
+            if a0 is not None:
+                it = Agg()
+                it["_k"] = "iter"
+                it["kind"] = mi.group(1)
+                it["a"] = a0
+                if mi.group(1) == "zip":
+                    b0 = as_it(args[1]) if isinstance(args[1], Agg) else None
+                    if b0 is None and isinstance(args[1], tuple) and args[1][:1] == ("ref",):
+                        b0 = self.builtin(env, bb, c, "core::slice::<impl [T]>::iter", [args[1]], None)
+                    if b0 is None:
+                        it = None
+                    else:
+                        it["b"] = b0
+                if mi.group(1) == "enumerate":
+                    it["n"] = 0
+                if it is not None:
+                    return it
+        if re.search(r" as core::iter::(?:traits::iterator::)?Iterator>::next$", name) and len(args) == 1 and isinstance(args[0], tuple) and args[0][:1] == ("ref",):
+            itv = self.read_ref(env, args[0])
+            if isinstance(itv, Agg) and itv.get("_k") == "iter":
+                itv = itv.copy()
+
+                def step(it):
+                    k = it["kind"]
+                    if k == "slice":
+                        if it["i"] < it["hi"]:
+                            v = ("ref", it["ref"][1], tuple(it["ref"][2]) + (("i", it["i"]),), None)
+                            it["i"] += 1
+                            return True, v
+                        return False, None
+                    if k == "range":
+                        if it["i"] < it["hi"]:
+                            v = C(it["i"], it.get("ty", "usize"))
+                            it["i"] += 1
+                            return True, v
+                        return False, None
+                    if k == "rev":
+                        a = it["a"]
+                        if a["kind"] in ("slice", "range") and a["i"] < a["hi"]:
+                            a["hi"] -= 1
+                            if a["kind"] == "range":
+                                return True, C(a["hi"], a.get("ty", "usize"))
+                            return True, ("ref", a["ref"][1], tuple(a["ref"][2]) + (("i", a["hi"]),), None)
+                        return False, None
+                    if k == "zip":
+                        oa, va = step(it["a"])
+                        if not oa:
+                            return False, None
+                        ob, vb = step(it["b"])
+                        if not ob:
+                            return False, None
+                        t = Agg()
+                        t["_k"] = "tuple"
+                        t["0"] = va
+                        t["1"] = vb
+                        return True, t
+                    if k == "enumerate":
+                        o_, v_ = step(it["a"])
+                        if not o_:
+                            return False, None
+                        t = Agg()
+                        t["_k"] = "tuple"
+                        t["0"] = C(it["n"], "usize")
+                        t["1"] = v_
+                        it["n"] += 1
+                        return True, t
+                    return False, None
+                ok_, v_ = step(itv)
+                o = Agg()
+                o["_k"] = "adt"
+                o["_adt"] = "core::option::Option"
+                if ok_:
+                    o["_variant"] = "Some"
+                    o["_variant_idx"] = 1
+                    o["0"] = v_
+                else:
+                    o["_variant"] = "None"
+                    o["_variant_idx"] = 0
+                self.write_ref(env, args[0], (), itv, bb)
+                return o
         if name.endswith("Iterator for core::ops::Range<A>>::next") and len(args) == 1 and isinstance(args[0], tuple) and args[0][:1] == ("ref",):
             it = self.read_ref(env, args[0])
             if isinstance(it, Agg) and is_c(it.get("start")) and is_c(it.get("end")):
